@@ -96,4 +96,20 @@ theorem resolve_forward {B : Nat} {spec : Dyn.Bsms} (hf : Forward spec) (hB : Ar
       have hij := hf i args hargs j hj
       exact resolve_forward hf hB gas (level + 1) j (by omega) (by omega)
 
+theorem mem_le_sum : ∀ (l : List Nat) (a : Nat), a ∈ l → a ≤ l.sum
+  | [], a, h => by simp at h
+  | b :: rest, a, h => by
+    simp only [List.mem_cons] at h
+    simp only [List.sum_cons]
+    rcases h with h | h
+    · omega
+    · have := mem_le_sum rest a h
+      omega
+
+/-- a bound that works for any structure: the total number of arguments -/
+theorem argsLe_sum (spec : Bsms) : ArgsLe spec ((spec.map List.length).sum) := by
+  intro i args hi
+  have hm : args ∈ spec := List.mem_of_getElem? hi
+  exact mem_le_sum _ _ (List.mem_map.mpr ⟨args, hm, rfl⟩)
+
 end Total.Dyn
